@@ -19,7 +19,8 @@ MANIFEST = {
             "ONE response message (server_one_response_message); client, network (any loss / duplication / delay of what the peer "
             "transmitted) and server composed in a closed loop: exactly_once_closed_loop_partial, and for piggybacked responses with "
             "delays < ACK_TIMEOUT the timed argument that no copy arrives after the give-up is proved, giving exactly-once without "
-            "side conditions (exactly_once_piggybacked, exactly_once_piggybacked_default). M (client, server personalities, network, "
+            "side conditions, and 'never neither' whenever the client is quiet since such a server sends no empty ACK "
+            "(exactly_once_piggybacked, exactly_once_piggybacked_default, exactly_once_piggybacked_quiet). M (client, server personalities, network, "
             "event loop) is tied to the compiled code by exact equality of whole traces (every datagram, handler call, NACK, with "
             "virtual timestamps) of a real client and a real server context on generated loss/duplication/delay schedules; the "
             "property's clauses are also checked directly on the implementation's trace.",
@@ -44,7 +45,7 @@ REQUIRED_THEOREMS = ["exactly_once_partial", "response_stops_retransmission", "c
                      # liveness, server side condition D2, closed loop + timed argument, whole runs
                      "never_neither", "concludes_when_quiet_partial", "d5_neither_witness", "server_one_response_message",
                      "server_without_dedup_witness", "exactly_once_closed_loop_partial", "exactly_once_piggybacked",
-                     "exactly_once_piggybacked_default", "run_con_responses_acked", "run_con_response_acked_at",
+                     "exactly_once_piggybacked_default", "exactly_once_piggybacked_quiet", "run_con_responses_acked", "run_con_response_acked_at",
                      "run_duplicates_not_redelivered"]
 RULE = ("schedules for harness/exchange.c (real client + real server context, virtual clock, scripted network): server personality "
         "(piggyback, coap_async delayed / triggered, application-delayed separate CON / NON, each with and without application-level "
